@@ -101,6 +101,18 @@ CLAIMED = {
         "random precondition-respecting operation sequences with the invariant evaluated after every step on all three backends and write → read at the end.",
    technique="Lean 4 proof (invariant by induction over operation sequences on nested arrays; refinement to C01 for serialisation) + randomised sequence execution with invariant checks and model correspondence",
    design="§5 C12"),
+ "C13": dict(
+   text="Theorems (Props/C13.lean) about the executable model of the three normalisers instantiated with the real numbers and Real.sqrt. Two-point normaliser, on a well-formed body of any shape: confidences and missing "
+        "pattern unchanged, mean midpoint of the reference points at the origin, mean reference distance = requested scale (normalize_post); translating and uniformly scaling the input (a > 0) gives exactly the same body "
+        "(normalize_similarity_invariant) — via the lift lemma cellVals_mapCoords (a coordinate-wise map of a well-formed body maps every observed column value and nothing else). Distribution normaliser, per column: mean 0 "
+        "(distribution_mean_zero), deviation 1 (distribution_std_one), unnormalize restores (unnormalize_inverse). 3-D plane / line normaliser, per frame and person: first line point at the origin (line_p1_at_origin); plane "
+        "points at z = 0 when the first line point is a plane point (plane_at_z0_partial — the unconditional statement is known finding K3); the line on the negative-Y half-plane with 3-D length = size (line_on_negative_y); "
+        "translation and uniform-scale invariance (normalize3D_translation_invariant, normalize3D_scale_invariant); and the NEGATION of rotation invariance with an exact witness (not_rotation_invariant: z = −1/15 vs −1/25 "
+        "after a 90° turn about Z) — known finding K2, replayed on the implementation on every run. Partial: float rounding; arctan2 / Rotation.from_euler modelled by cos θ = −v_y / r, sin θ = v_x / r (the model agrees with scipy "
+        "on every generated case); the lift of the distribution theorems from a column to the body is checked on the implementation. All three normalisers are run on NumPy (and tensorflow for the first two) poses and "
+        "compared with the postconditions, the invariances and the model.",
+   technique="Lean 4 proof over ℝ (Mathlib: ring / field_simp / Real.sqrt lemmas; list-level lift lemmas) incl. a proved counter-example + differential correspondence and postcondition oracle on the implementation",
+   design="§5 C13"),
  "C14": dict(
    text="Theorems (Props/C14.lean), the model's linear interpolation instantiated with an arbitrary linearly ordered field: the resampled clip has the requested number of frames — round(F * new_fps / fps), a binary64 rounding evaluated by the caller and checked on the implementation — at the new rate (interp_frames_fps) whose instants run from 0 to 1 "
         "(linspace_ends); a track is missing at every new instant outside [first observation, last observation] (track_zero_outside_window, before_window); inside, the value equals the observation at an observed instant "
